@@ -343,132 +343,205 @@ theorem k_xsuf : tbXclipSuffix = enc .xsuf := rfl
 theorem k_xpre : tbXclipPrefix = enc .xpre := rfl
 theorem k_ypre : tbYclipPrefix = enc .ypre := rfl
 
-/-- **One cell of the main loop** (the body of `for i in 1..m + 1`, translated text, with the three tie-breaks `T` as
-parameters) **= `stepJT T`** (for the pinned tie-breaks: `stepJC` of the checked-`i32` mirror): on every aligner state
-with vectors of the right lengths (`Dims`), for `1 ≤ i ≤ m`, `1 ≤ j ≤ n`, `curr ≠ prev` both `< 2`, with `S[curr][i]`
-reset to `MIN_SCORE` (unless `i = m`: the x-suffix register) and the S fields of the two neighbour cells holding valid
-codes: the body panics exactly when the mirror's row is `none` (an `i32` overflow), and otherwise writes exactly the
-mirror's row `r'` — `S/I/D[curr][i]`, the register `S[curr][m]`, `Sn[i]`, `Ly[i]`, `Lx[j]`, cell `(i, j)` — and nothing else. -/
-theorem cell_update_aux (w : Nat → Nat → Int) (T : Ties) (a : Aligner) (x : List Nat) (m n i j curr prev q : Nat) (xclip : Int)
-    (tsL tsU : Tb) (hd : Dims a m n) (hx : x.length = m) (hi : 1 ≤ i) (him : i ≤ m) (hj : 1 ≤ j) (hjn : j ≤ n)
-    (hc : curr < 2) (hp : prev < 2) (hcp : curr ≠ prev)
-    (hreset : i ≠ m → (a.S.getD curr []).getD i 0 = minScore)
-    (hL : SIs a (i - 1) j tsL) (hU : SIs a i (j - 1) tsU) :
-    custom_for5 w T.iT T.dT T.snT T.sn0T x m n j curr prev q xclip a i =
-      ofOpt (stepJT T (scOf w a) (clOf a) m n j i (x.getD (i - 1) 0) q xclip (rowPrev1 a prev (i - 1))
-          (rowPrev a prev i tsU) (rowCur a m j curr (i - 1) tsL)) >>= fun r' => Res.ok (writeRow a m curr i j r') := by
-  obtain ⟨S2, I2, D2, Srow, Irow, Drow, hSn, hLy, hLx, htb, hrows, hcols⟩ := hd
-  have eSc : Rs.idx a.S curr = .ok (a.S.getD curr []) := idxD _ _ (by omega)
-  have eSp : Rs.idx a.S prev = .ok (a.S.getD prev []) := idxD _ _ (by omega)
-  have eIc : Rs.idx a.I curr = .ok (a.I.getD curr []) := idxD _ _ (by omega)
-  have eDc : Rs.idx a.D curr = .ok (a.D.getD curr []) := idxD _ _ (by omega)
-  have eDp : Rs.idx a.D prev = .ok (a.D.getD prev []) := idxD _ _ (by omega)
-  have eL : tbGet a.traceback (i - 1) j = .ok (cellAt a (i - 1) j) := by
-    rw [tbGet_eq_model _ _ _ htb (by omega) (by omega)]
-    exact idxD _ _ (shaped_idx htb (by omega) (by omega)).1
-  have eU : tbGet a.traceback i (j - 1) = .ok (cellAt a i (j - 1)) := by
-    rw [tbGet_eq_model _ _ _ htb (by omega) (by omega)]
-    exact idxD _ _ (shaped_idx htb (by omega) (by omega)).1
-  have eW : ∀ c, tbSet a.traceback i j c =
-      .ok { a.traceback with matrix := a.traceback.matrix.set (i * a.traceback.cols + j) c } :=
-    fun c => tbSet_eq_model _ _ _ _ htb (by omega) (by omega)
-  unfold SIs at hL hU
-  simp only [rowPrev1, rowPrev, rowCur, scOf, clOf, writeRow, stepJT, ofOpt_obind]
-  have lSc : (a.S.getD curr []).length = m + 1 := Srow _ hc
-  have lSp : (a.S.getD prev []).length = m + 1 := Srow _ hp
-  have lIc : (a.I.getD curr []).length = m + 1 := Irow _ hc
-  have lDc : (a.D.getD curr []).length = m + 1 := Drow _ hc
-  have lDp : (a.D.getD prev []).length = m + 1 := Drow _ hp
-  have e1 : Rs.sub i 1 = .ok (i - 1) := Rs.sub_ok hi
-  have e1j : Rs.sub j 1 = .ok (j - 1) := Rs.sub_ok hj
-  have e2 : Rs.idx x (i - 1) = .ok (x.getD (i - 1) 0) := idxD _ _ (by omega)
-  have e3 : Rs.idx (a.S.getD prev []) (i - 1) = .ok ((a.S.getD prev []).getD (i - 1) 0) := idxD _ _ (by omega)
-  have e4 : Rs.idx (a.I.getD curr []) (i - 1) = .ok ((a.I.getD curr []).getD (i - 1) 0) := idxD _ _ (by omega)
-  have e5 : Rs.idx (a.S.getD curr []) (i - 1) = .ok ((a.S.getD curr []).getD (i - 1) 0) := idxD _ _ (by omega)
-  have e6 : Rs.idx (a.D.getD prev []) i = .ok ((a.D.getD prev []).getD i 0) := idxD _ _ (by omega)
-  have e7 : Rs.idx (a.S.getD prev []) i = .ok ((a.S.getD prev []).getD i 0) := idxD _ _ (by omega)
-  have e8 : Rs.idx (a.S.getD curr []) i = .ok ((a.S.getD curr []).getD i 0) := idxD _ _ (by omega)
-  have f1 : ∀ v, Rs.setIdx (a.S.getD curr []) i v = .ok ((a.S.getD curr []).set i v) := fun v => setIdx_ok' _ _ _ (by omega)
-  have f2 : ∀ l, Rs.setIdx a.S curr l = .ok (a.S.set curr l) := fun l => setIdx_ok' _ _ _ (by omega)
-  have f3 : ∀ v, Rs.setIdx (a.I.getD curr []) i v = .ok ((a.I.getD curr []).set i v) := fun v => setIdx_ok' _ _ _ (by omega)
-  have f4 : ∀ l, Rs.setIdx a.I curr l = .ok (a.I.set curr l) := fun l => setIdx_ok' _ _ _ (by omega)
-  have f5 : ∀ v, Rs.setIdx (a.D.getD curr []) i v = .ok ((a.D.getD curr []).set i v) := fun v => setIdx_ok' _ _ _ (by omega)
-  have f6 : ∀ l, Rs.setIdx a.D curr l = .ok (a.D.set curr l) := fun l => setIdx_ok' _ _ _ (by omega)
-  have f7 : ∀ l : List Int, Rs.idx (a.S.set curr l) curr = .ok l := fun l => by
-    rw [Rs.idx_ok (by rw [List.length_set]; omega)]; simp
-  have f8 : ∀ v : Int, Rs.idx ((a.S.getD curr []).set i v) i = .ok v := fun v => by
-    rw [Rs.idx_ok (by rw [List.length_set]; omega)]; simp
-  have f9 : ∀ v : Int, Rs.idx ((a.S.getD curr []).set i v) m = .ok (if i = m then v else (a.S.getD curr []).getD m 0) :=
-    fun v => by
-      have hlt : i < (a.S.getD curr []).length := by omega
-      rw [idxD _ _ (by rw [List.length_set]; omega), getD_set']
-      simp only [hlt, and_true]; rfl
-  have f10 : ∀ v u : Int, Rs.setIdx ((a.S.getD curr []).set i v) m u = .ok (((a.S.getD curr []).set i v).set m u) :=
-    fun v u => setIdx_ok' _ _ _ (by rw [List.length_set]; omega)
-  have f11 : ∀ l l' : List Int, Rs.setIdx (a.S.set curr l) curr l' = .ok (a.S.set curr l') := fun l l' => by
-    rw [setIdx_ok' _ _ _ (by rw [List.length_set]; omega), List.set_set]
-  have f12 : Rs.sub m i = .ok (m - i) := Rs.sub_ok him
-  have f13 : Rs.sub n j = .ok (n - j) := Rs.sub_ok hjn
-  have f14 : ∀ v, Rs.setIdx a.Lx j v = .ok (a.Lx.set j v) := fun v => setIdx_ok' _ _ _ (by omega)
-  have f15 : ∀ v, Rs.setIdx a.Sn i v = .ok (a.Sn.set i v) := fun v => setIdx_ok' _ _ _ (by omega)
-  have f16 : ∀ v, Rs.setIdx a.Ly i v = .ok (a.Ly.set i v) := fun v => setIdx_ok' _ _ _ (by omega)
-  have f17 : Rs.idx a.Sn i = .ok (a.Sn.getD i 0) := idxD _ _ (by omega)
-  have f18 : ∀ (v u : Int), Rs.idx (((a.S.getD curr []).set i v).set m u) i = .ok (if i = m then u else v) := fun v u => by
-    have hlt : i < (a.S.getD curr []).length := by omega
-    have hlt2 : m < ((a.S.getD curr []).set i v).length := by rw [List.length_set]; omega
-    rw [idxD _ _ (by rw [List.length_set, List.length_set]; omega), getD_set', getD_set']
-    simp only [hlt, hlt2, and_true, if_true]
-    by_cases h : i = m
-    · simp [h]
-    · have h' : ¬ m = i := fun e => h e.symm
-      simp [h, h']
-  have f19 : ∀ v : Int, ((a.S.getD curr []).set i v).getD m 0 = if i = m then v else (a.S.getD curr []).getD m 0 := fun v => by
-    have hlt : i < (a.S.getD curr []).length := by omega
-    rw [getD_set']; simp only [hlt, and_true]
-  have hb0 : (a.S.getD curr []).getD i 0 = if i = m then (a.S.getD curr []).getD m 0 else minScore := by
-    by_cases h : i = m
-    · rw [if_pos h, h]
-    · rw [if_neg h]; exact hreset h
-  have hcomm : ∀ s, I32.add (w (x.getD (i - 1) 0) q) s = I32.add s (w (x.getD (i - 1) 0) q) := fun s => by
-    unfold I32.add; rw [Int.add_comm]
-  unfold custom_for5
-  simp only [hcomm, e1, e1j, e2, e3, e4, e5, e6, e7, e8, eSc, eSp, eIc, eDc, eDp, eL, eU, cellNew_eq_model, Res.pure_eq_ok, Res.ok_bind,
-    bind_pure_comp, iadd32, imul32, castSigned32, getSBits_eq_model, hL, hU, k_ins, k_del, k_xsuf, k_xpre, k_ypre, enc_ite,
-    setI_new, setD_cI, setS_cD, setS_cell, ite_ok, ite_fst, ite_snd, ite_cI, ite_cD, ite_cell, minScore_eq, upd_fold,
-    f1, f2, f3, f4, f5, f6, f7, f8, f9, f10, f11, f12, f13, f14, f15, f16, f17, f18, f19, eW, bind_assoc,
-    apply_ite Aligner.S, apply_ite Aligner.Sn, apply_ite Aligner.Ly, apply_ite Aligner.Lx, apply_ite Aligner.I,
-    apply_ite Aligner.D, apply_ite Aligner.traceback, apply_ite Aligner.scoring, ite_self, ite_set0, ite_setN, ite_set2]
-  rw [hb0]
-  iterate 10 (refine bind_congr (fun _ => ?_))
-  generalize I32.add _ a.scoring.xclip_suffix = o11
-  cases o11 with
-  | none => simp only [ofOpt_none, Res.panic_bind]
-  | some cx =>
-  simp only [ofOpt_some, Res.ok_bind, ite_ok, f7, f18, f19, apply_ite Aligner.S, apply_ite Aligner.Sn, apply_ite Aligner.Ly,
-    apply_ite Aligner.Lx, apply_ite Aligner.I, apply_ite Aligner.D, apply_ite Aligner.traceback, apply_ite Aligner.scoring,
-    ite_self, ite_set0, ite_setN, ite_set2, upd_fold, f15, f16, f17, eW]
-  generalize I32.add _ a.scoring.yclip_suffix = o12
-  cases o12 with
-  | none => simp only [ofOpt_none, Res.panic_bind]
-  | some cy =>
-  simp only [ofOpt_some, Res.ok_bind, ite_ok, apply_ite Aligner.S, apply_ite Aligner.Sn, apply_ite Aligner.Ly,
-    apply_ite Aligner.Lx, apply_ite Aligner.I, apply_ite Aligner.D, apply_ite Aligner.traceback, apply_ite Aligner.scoring,
-    ite_self, ite_set0, ite_setN, ite_set2, upd_fold, f15, f16, eW, Res.ok.injEq, f19]
+/-! ### the hard obligation: values and admissible codes, for any order of the candidates of `S(i, j)` -/
+
+theorem upd_eq_max (c b : Int) : upd c b = max c b := by unfold upd; split <;> omega
+theorem max_lc (a b c : Int) : max a (max b c) = max b (max a c) := by omega
+theorem set_set_reg (l : List Int) (i m : Nat) (X V : Int) :
+    (l.set i (if i = m then X else V)).set m X = (l.set i V).set m X := by
   by_cases h : i = m
   · subst h; simp [List.set_set]
-  · simp only [if_neg h]; try rfl
+  · simp [h]
 
-/-- `cell_update_aux` at the indices the outer loop uses (`curr = j % 2`, `prev = 1 - curr`) -/
-theorem cell_update_mod_ties (w : Nat → Nat → Int) (T : Ties) (a : Aligner) (x : List Nat) (m n i j q : Nat) (xclip : Int)
-    (tsL tsU : Tb) (hd : Dims a m n) (hx : x.length = m) (hi : 1 ≤ i) (him : i ≤ m) (hj : 1 ≤ j) (hjn : j ≤ n)
-    (hreset : i ≠ m → (a.S.getD (j % 2) []).getD i 0 = minScore)
-    (hL : SIs a (i - 1) j tsL) (hU : SIs a i (j - 1) tsU) :
-    custom_for5 w T.iT T.dT T.snT T.sn0T x m n j (j % 2) (1 - j % 2) q xclip a i =
-      ofOpt (stepJT T (scOf w a) (clOf a) m n j i (x.getD (i - 1) 0) q xclip (rowPrev1 a (1 - j % 2) (i - 1))
-          (rowPrev a (1 - j % 2) i tsU) (rowCur a m j (j % 2) (i - 1) tsL)) >>= fun r' =>
-        Res.ok (writeRow a m (j % 2) i j r') :=
-  cell_update_aux w T a x m n i j (j % 2) (1 - j % 2) q xclip tsL tsU hd hx hi him hj hjn (by omega) (by omega) (by omega)
-    hreset hL hU
+/-- how the text chooses the traceback code of the S layer: a function of the candidates' scores — the placeholder
+`S[curr][i]`, `m_score`, the two operands of the I tie, the two operands of the D tie, `xclip_score`, `yclip_score` — and of the
+two symbols -/
+abbrev SCodeFn := Int → Int → Int → Int → Int → Int → Int → Int → Nat → Nat → Tb
+
+/-- **the S code is admissible**: it names a candidate whose score is the value of the S layer (the maximum of the six
+candidates) — "the code explains the value", what the soundness of the traceback needs -/
+def SCodeOk (T : Ties) (f : SCodeFn) : Prop :=
+  ∀ (b0 ms a b c d xc yc : Int) (p q : Nat),
+    (f b0 ms a b c d xc yc p q,
+        max b0 (max ms (max (if T.iT a b = true then a else b) (max (if T.dT c d = true then c else d) (max xc yc))))) ∈
+      [(Tb.xsuf, b0), (if p = q then Tb.mat else Tb.subst, ms), (Tb.ins, if T.iT a b = true then a else b),
+        (Tb.del, if T.dT c d = true then c else d), (Tb.xpre, xc), (Tb.ypre, yc)]
+
+open RbV.I32 in
+/-- the row of the checked-`i32` mirror with the tie-breaks `T` **and the S-code chooser `sCode`** as parameters; the value of
+the S layer is the maximum of the six candidates (order-free) -/
+def stepJS (T : Ties) (sCode : SCodeFn) (sc : Sc) (cl : Clip) (m n j i p q : Nat) (xclip_score b0 : Int) (pr1 pr r : Row) :
+    Option Row :=
+  obind (add pr1.s (sc.w p q)) fun m_score =>
+  obind (add r.i sc.ge) fun i_score =>
+  obind (add r.s sc.go) fun s0 =>
+  obind (add s0 sc.ge) fun s_score =>
+  let best_i_score := if T.iT i_score s_score = true then i_score else s_score
+  let ti : Tb := if T.iT i_score s_score = true then .ins else r.t.ts
+  obind (add pr.d sc.ge) fun d_score =>
+  obind (add pr.s sc.go) fun s1 =>
+  obind (add s1 sc.ge) fun s_score2 =>
+  let best_d_score := if T.dT d_score s_score2 = true then d_score else s_score2
+  let td : Tb := if T.dT d_score s_score2 = true then .del else pr.t.ts
+  obind (add cl.yp sc.go) fun y0 =>
+  obind (mul sc.ge (ofUsize i)) fun t =>
+  obind (add y0 t) fun yclip_score =>
+  let b5 := max b0 (max m_score (max best_i_score (max best_d_score (max xclip_score yclip_score))))
+  let c5 : Tb := sCode b0 m_score i_score s_score d_score s_score2 xclip_score yclip_score p q
+  obind (add b5 cl.xs) fun cx =>
+  let xm1 := if i = m then b5 else r.xm
+  let xm2 := max cx xm1
+  let lx := if cx > xm1 then m - i else r.t.lx
+  let s := if i = m then xm2 else b5
+  obind (add s cl.ys) fun cy =>
+  let ly := if T.snT cy pr.sn = true then n - j else pr.t.ly
+  some ⟨s, best_i_score, best_d_score, if T.snT cy pr.sn = true then cy else pr.sn, xm2, ⟨c5, ti, td, ly, lx⟩⟩
+
+/-- **generic step of "the best of a list of (code, score) candidates, compared in any order"**: if `(C, V)` is a candidate and
+`(code, v)` is a candidate, then so is the pair the text keeps after `if v > V { best = v; code }` (value `max v V`) -/
+theorem pick_gt (cands : List (Tb × Int)) (C code : Tb) (V v W : Int) (hW : W = max v V) (hprev : (C, V) ∈ cands)
+    (hnew : (code, v) ∈ cands) : ((if v > V then code else C), W) ∈ cands := by
+  subst hW
+  by_cases h : v > V
+  · rw [if_pos h, show max v V = v by omega]; exact hnew
+  · rw [if_neg h, show max v V = V by omega]; exact hprev
+/-- … and after `if v >= V { … }` -/
+theorem pick_ge (cands : List (Tb × Int)) (C code : Tb) (V v W : Int) (hW : W = max v V) (hprev : (C, V) ∈ cands)
+    (hnew : (code, v) ∈ cands) : ((if v ≥ V then code else C), W) ∈ cands := by
+  subst hW
+  by_cases h : v ≥ V
+  · rw [if_pos h, show max v V = v by omega]; exact hnew
+  · rw [if_neg h, show max v V = V by omega]; exact hprev
+
+/-- the cell equation for a given code chooser -/
+def CellEq (w : Nat → Nat → Int) (T : Ties) (sCode : SCodeFn) : Prop :=
+      ∀ (a : Aligner) (x : List Nat) (m n i j curr prev q p : Nat) (xclip B0 : Int) (tsL tsU : Tb) (hd : Dims a m n)
+        (hx : x.length = m) (hpx : x.getD (i - 1) 0 = p) (hi : 1 ≤ i) (him : i ≤ m) (hj : 1 ≤ j) (hjn : j ≤ n) (hc : curr < 2) (hp : prev < 2)
+        (hcp : curr ≠ prev) (hB0 : (a.S.getD curr []).getD i 0 = B0)
+        (hL : SIs a (i - 1) j tsL) (hU : SIs a i (j - 1) tsU),
+        custom_for5 w T.iT T.dT T.snT T.sn0T x m n j curr prev q xclip a i =
+          ofOpt (stepJS T sCode (scOf w a) (clOf a) m n j i p q xclip B0 (rowPrev1 a prev (i - 1))
+              (rowPrev a prev i tsU) (rowCur a m j curr (i - 1) tsL)) >>= fun r' =>
+            Res.ok (writeRow a m curr i j r')
+
+/-- **One cell of the main loop (translated text), for any order in which the text compares the six candidates of `S(i, j)`
+and any mix of `>` / `>=` at the I / D / Sn ties**: there is a code chooser `sCode` that is admissible (`SCodeOk`) such that on
+every aligner state of the right shape the body panics exactly when the checked-`i32` row is `none`, and otherwise writes
+exactly the row `stepJS T sCode …`: the **values** `S/I/D[curr][i]`, the register `S[curr][m]`, `Sn[i]`, `Ly[i]`, `Lx[j]` are the
+mirror's (the S value is the maximum of the candidates), the I and D codes are the tie-break's, the S code is `sCode`'s. -/
+theorem cell_update_any_order (w : Nat → Nat → Int) (T : Ties) :
+    ∃ sCode : SCodeFn, SCodeOk T sCode ∧ CellEq w T sCode := by
+  refine ⟨?f, ?ok, ?eq⟩
+  case eq =>
+    unfold CellEq
+    intro a x m n i j curr prev q p xclip B0 tsL tsU hd hx hpx hi him hj hjn hc hp hcp hB0 hL hU
+    obtain ⟨S2, I2, D2, Srow, Irow, Drow, hSn, hLy, hLx, htb, hrows, hcols⟩ := hd
+    have eSc : Rs.idx a.S curr = .ok (a.S.getD curr []) := idxD _ _ (by omega)
+    have eSp : Rs.idx a.S prev = .ok (a.S.getD prev []) := idxD _ _ (by omega)
+    have eIc : Rs.idx a.I curr = .ok (a.I.getD curr []) := idxD _ _ (by omega)
+    have eDc : Rs.idx a.D curr = .ok (a.D.getD curr []) := idxD _ _ (by omega)
+    have eDp : Rs.idx a.D prev = .ok (a.D.getD prev []) := idxD _ _ (by omega)
+    have eL : tbGet a.traceback (i - 1) j = .ok (cellAt a (i - 1) j) := by
+      rw [tbGet_eq_model _ _ _ htb (by omega) (by omega)]
+      exact idxD _ _ (shaped_idx htb (by omega) (by omega)).1
+    have eU : tbGet a.traceback i (j - 1) = .ok (cellAt a i (j - 1)) := by
+      rw [tbGet_eq_model _ _ _ htb (by omega) (by omega)]
+      exact idxD _ _ (shaped_idx htb (by omega) (by omega)).1
+    have eW : ∀ c, tbSet a.traceback i j c =
+        .ok { a.traceback with matrix := a.traceback.matrix.set (i * a.traceback.cols + j) c } :=
+      fun c => tbSet_eq_model _ _ _ _ htb (by omega) (by omega)
+    unfold SIs at hL hU
+    simp only [rowPrev1, rowPrev, rowCur, scOf, clOf, writeRow, stepJS, ofOpt_obind]
+    have lSc : (a.S.getD curr []).length = m + 1 := Srow _ hc
+    have lSp : (a.S.getD prev []).length = m + 1 := Srow _ hp
+    have lIc : (a.I.getD curr []).length = m + 1 := Irow _ hc
+    have lDc : (a.D.getD curr []).length = m + 1 := Drow _ hc
+    have lDp : (a.D.getD prev []).length = m + 1 := Drow _ hp
+    have e1 : Rs.sub i 1 = .ok (i - 1) := Rs.sub_ok hi
+    have e1j : Rs.sub j 1 = .ok (j - 1) := Rs.sub_ok hj
+    have e2 : Rs.idx x (i - 1) = .ok p := by rw [← hpx]; exact idxD _ _ (by omega)
+    have e3 : Rs.idx (a.S.getD prev []) (i - 1) = .ok ((a.S.getD prev []).getD (i - 1) 0) := idxD _ _ (by omega)
+    have e4 : Rs.idx (a.I.getD curr []) (i - 1) = .ok ((a.I.getD curr []).getD (i - 1) 0) := idxD _ _ (by omega)
+    have e5 : Rs.idx (a.S.getD curr []) (i - 1) = .ok ((a.S.getD curr []).getD (i - 1) 0) := idxD _ _ (by omega)
+    have e6 : Rs.idx (a.D.getD prev []) i = .ok ((a.D.getD prev []).getD i 0) := idxD _ _ (by omega)
+    have e7 : Rs.idx (a.S.getD prev []) i = .ok ((a.S.getD prev []).getD i 0) := idxD _ _ (by omega)
+    have e8 : Rs.idx (a.S.getD curr []) i = .ok B0 := by rw [← hB0]; exact idxD _ _ (by omega)
+    have f1 : ∀ v, Rs.setIdx (a.S.getD curr []) i v = .ok ((a.S.getD curr []).set i v) := fun v => setIdx_ok' _ _ _ (by omega)
+    have f2 : ∀ l, Rs.setIdx a.S curr l = .ok (a.S.set curr l) := fun l => setIdx_ok' _ _ _ (by omega)
+    have f3 : ∀ v, Rs.setIdx (a.I.getD curr []) i v = .ok ((a.I.getD curr []).set i v) := fun v => setIdx_ok' _ _ _ (by omega)
+    have f4 : ∀ l, Rs.setIdx a.I curr l = .ok (a.I.set curr l) := fun l => setIdx_ok' _ _ _ (by omega)
+    have f5 : ∀ v, Rs.setIdx (a.D.getD curr []) i v = .ok ((a.D.getD curr []).set i v) := fun v => setIdx_ok' _ _ _ (by omega)
+    have f6 : ∀ l, Rs.setIdx a.D curr l = .ok (a.D.set curr l) := fun l => setIdx_ok' _ _ _ (by omega)
+    have f7 : ∀ l : List Int, Rs.idx (a.S.set curr l) curr = .ok l := fun l => by
+      rw [Rs.idx_ok (by rw [List.length_set]; omega)]; simp
+    have f8 : ∀ v : Int, Rs.idx ((a.S.getD curr []).set i v) i = .ok v := fun v => by
+      rw [Rs.idx_ok (by rw [List.length_set]; omega)]; simp
+    have f9 : ∀ v : Int, Rs.idx ((a.S.getD curr []).set i v) m = .ok (if i = m then v else (a.S.getD curr []).getD m 0) :=
+      fun v => by
+        have hlt : i < (a.S.getD curr []).length := by omega
+        rw [idxD _ _ (by rw [List.length_set]; omega), getD_set']
+        simp only [hlt, and_true]; rfl
+    have f10 : ∀ v u : Int, Rs.setIdx ((a.S.getD curr []).set i v) m u = .ok (((a.S.getD curr []).set i v).set m u) :=
+      fun v u => setIdx_ok' _ _ _ (by rw [List.length_set]; omega)
+    have f11 : ∀ l l' : List Int, Rs.setIdx (a.S.set curr l) curr l' = .ok (a.S.set curr l') := fun l l' => by
+      rw [setIdx_ok' _ _ _ (by rw [List.length_set]; omega), List.set_set]
+    have f12 : Rs.sub m i = .ok (m - i) := Rs.sub_ok him
+    have f13 : Rs.sub n j = .ok (n - j) := Rs.sub_ok hjn
+    have f14 : ∀ v, Rs.setIdx a.Lx j v = .ok (a.Lx.set j v) := fun v => setIdx_ok' _ _ _ (by omega)
+    have f15 : ∀ v, Rs.setIdx a.Sn i v = .ok (a.Sn.set i v) := fun v => setIdx_ok' _ _ _ (by omega)
+    have f16 : ∀ v, Rs.setIdx a.Ly i v = .ok (a.Ly.set i v) := fun v => setIdx_ok' _ _ _ (by omega)
+    have f17 : Rs.idx a.Sn i = .ok (a.Sn.getD i 0) := idxD _ _ (by omega)
+    have f18 : ∀ (v u : Int), Rs.idx (((a.S.getD curr []).set i v).set m u) i = .ok (if i = m then u else v) := fun v u => by
+      have hlt : i < (a.S.getD curr []).length := by omega
+      have hlt2 : m < ((a.S.getD curr []).set i v).length := by rw [List.length_set]; omega
+      rw [idxD _ _ (by rw [List.length_set, List.length_set]; omega), getD_set', getD_set']
+      simp only [hlt, hlt2, and_true, if_true]
+      by_cases h : i = m
+      · simp [h]
+      · have h' : ¬ m = i := fun e => h e.symm
+        simp [h, h']
+    have f19 : ∀ v : Int, ((a.S.getD curr []).set i v).getD m 0 = if i = m then v else (a.S.getD curr []).getD m 0 := fun v => by
+      have hlt : i < (a.S.getD curr []).length := by omega
+      rw [getD_set']; simp only [hlt, and_true]
+    have hcomm : ∀ s, I32.add (w p q) s = I32.add s (w p q) := fun s => by
+      unfold I32.add; rw [Int.add_comm]
+    unfold custom_for5
+    simp only [hcomm, e1, e1j, e2, e3, e4, e5, e6, e7, e8, eSc, eSp, eIc, eDc, eDp, eL, eU, cellNew_eq_model, Res.pure_eq_ok, Res.ok_bind,
+      bind_pure_comp, iadd32, imul32, castSigned32, getSBits_eq_model, hL, hU, k_ins, k_del, k_xsuf, k_xpre, k_ypre, enc_ite,
+      setI_new, setD_cI, setS_cD, setS_cell, ite_ok, ite_fst, ite_snd, ite_cI, ite_cD, ite_cell, minScore_eq, upd_fold,
+      f1, f2, f3, f4, f5, f6, f7, f8, f9, f10, f11, f12, f13, f14, f15, f16, f17, f18, f19, eW, bind_assoc,
+      apply_ite Aligner.S, apply_ite Aligner.Sn, apply_ite Aligner.Ly, apply_ite Aligner.Lx, apply_ite Aligner.I,
+      apply_ite Aligner.D, apply_ite Aligner.traceback, apply_ite Aligner.scoring, ite_self, ite_set0, ite_setN, ite_set2]
+    iterate 10 (refine bind_congr (fun _ => ?_))
+    simp only [upd_eq_max, Int.max_assoc, Int.max_comm, max_lc]
+    generalize I32.add _ a.scoring.xclip_suffix = o11
+    cases o11 with
+    | none => simp only [ofOpt_none, Res.panic_bind]
+    | some cx =>
+    simp only [ofOpt_some, Res.ok_bind, ite_ok, f7, f18, f19, apply_ite Aligner.S, apply_ite Aligner.Sn, apply_ite Aligner.Ly,
+      apply_ite Aligner.Lx, apply_ite Aligner.I, apply_ite Aligner.D, apply_ite Aligner.traceback, apply_ite Aligner.scoring,
+      ite_self, ite_set0, ite_setN, ite_set2, upd_fold, f15, f16, f17, eW, upd_eq_max, Int.max_assoc, Int.max_comm, max_lc]
+    generalize I32.add _ a.scoring.yclip_suffix = o12
+    cases o12 with
+    | none => simp only [ofOpt_none, Res.panic_bind]
+    | some cy =>
+    simp only [ofOpt_some, Res.ok_bind, ite_ok, apply_ite Aligner.S, apply_ite Aligner.Sn, apply_ite Aligner.Ly,
+      apply_ite Aligner.Lx, apply_ite Aligner.I, apply_ite Aligner.D, apply_ite Aligner.traceback, apply_ite Aligner.scoring,
+      ite_self, ite_set0, ite_setN, ite_set2, upd_fold, f15, f16, eW, Res.ok.injEq, f19, upd_eq_max, Int.max_assoc, Int.max_comm,
+      max_lc]
+    simp only [set_set_reg, upd_eq_max, Int.max_assoc, Int.max_comm, max_lc]
+    rfl
+
+
+  case ok =>
+    intro b0 ms a b c d xc yc p q
+    dsimp only
+    generalize (if T.iT a b = true then a else b) = bi
+    generalize (if T.dT c d = true then c else d) = bd
+    repeat (first
+      | refine pick_gt _ _ _ _ _ _ (by simp only [Int.max_assoc, Int.max_comm, max_lc]) ?_ (by simp)
+      | refine pick_ge _ _ _ _ _ _ (by simp only [Int.max_assoc, Int.max_comm, max_lc]) ?_ (by simp))
+    simp
 
 /-- what `writeRow` leaves behind, read back: the written cell holds the three codes of the row -/
 theorem cellOf_reads (ts ti td : Tb) :
